@@ -277,6 +277,26 @@ def run_cases(ctx, exe, cases, cnt, var, cov, dist, distinct, nested=False):
                 ents.append(Ent(b"o/w/dest/" + b"/".join(comps[:i]), "d", 0o755, OLD + 20 + i))
             ents.append(Ent(cpath, "f", 0o644, OLD + 30, b"in the way") if kind == "d" else Ent(cpath, "d", 0o755, OLD + 30))
             c["conflict_path"] = cpath
+            # further entries of the wrong kind in the same run (Pcp/Deep.lean: any number, at any depth); a directory in
+            # the way holds a file of its own, which must stay
+            c["more_paths"] = []
+            for j, (path2, kind2) in enumerate(c.get("more_conflicts") or []):
+                comps = path2.split(b"/")
+                top = next(t for _, t in c["srcs"] if t.name == comps[0])
+                comps[0] = dest_name(c, b"", top)
+                have = set(e.path for e in ents)
+                for i in range(1, len(comps)):
+                    dpath = b"o/w/dest/" + b"/".join(comps[:i])
+                    if dpath not in have:
+                        ents.append(Ent(dpath, "d", 0o755, OLD + 40 + 3 * j + i))
+                        have.add(dpath)
+                cpath2 = b"o/w/dest/" + b"/".join(comps)
+                if kind2 == "d":
+                    ents.append(Ent(cpath2, "f", 0o644, OLD + 60 + j, b"in the way"))
+                else:
+                    ents.append(Ent(cpath2, "d", 0o750, OLD + 60 + j))
+                    ents.append(Ent(cpath2 + b"/kept", "f", 0o600, OLD + 70 + j, b"kept"))
+                c["more_paths"].append((cpath2, kind2))
         if c.get("overwrite"):
             comps = c["overwrite"].split(b"/")
             top = next(t for _, t in c["srcs"] if t.name == comps[0])
@@ -405,13 +425,16 @@ def run_cases(ctx, exe, cases, cnt, var, cov, dist, distinct, nested=False):
             bads = [(p, k) for p, k in bads if not (p == cp or p.startswith(cp + b"/"))]
             if not any(r.startswith("E:") for r in replies):
                 ctx.offender("isolation:unreported", "an entry that could not be written was not reported", cj)
-            # what was in the way is "another file": it must still be what it was
-            rw = snaps[i].get(cp)
-            if c["conflict"][1] == "d" and not (rw and rw["kind"] == "f" and rw["data"] == b"in the way"):
-                ctx.offender("isolation:entry-in-the-way-damaged", "the regular file in the way of the directory %r was "
-                             "replaced or overwritten (now %s)" % (cp, rw and (rw["kind"], (rw["data"] or b"")[:30])), cj)
-            if c["conflict"][1] == "f" and not (rw and rw["kind"] == "d"):
-                ctx.offender("isolation:entry-in-the-way-damaged", "the directory in the way of the file %r is gone" % cp, cj)
+            for cp2, kind2 in c.get("more_paths") or []:
+                bads = [(p, k) for p, k in bads if not (p == cp2 or p.startswith(cp2 + b"/"))]
+                rw2 = snaps[i].get(cp2)
+                if kind2 == "d" and not (rw2 and rw2["kind"] == "f" and rw2["data"] == b"in the way"):
+                    ctx.offender("isolation:entry-in-the-way-damaged", "the regular file in the way of the directory %r was "
+                                 "replaced or overwritten (now %s)" % (cp2, rw2 and (rw2["kind"], (rw2["data"] or b"")[:30])), cj)
+                kept = snaps[i].get(cp2 + b"/kept")
+                if kind2 == "f" and not (rw2 and rw2["kind"] == "d" and kept and kept["kind"] == "f" and kept["data"] == b"kept"):
+                    ctx.offender("isolation:entry-in-the-way-damaged", "the directory in the way of the file %r, or the file "
+                                 "in it, is gone or changed" % cp2, cj)
         expected = {}
         dc = pcp.lexnorm(CWD, c["dest"])
         for _, t in c["srcs"]:
@@ -509,6 +532,30 @@ def run_cases(ctx, exe, cases, cnt, var, cov, dist, distinct, nested=False):
             diffs = pcp.compare_fs(ms["fs"], snaps[i], t0)
             if diffs:
                 ctx.disagreement("pcp session file system", "; ".join(diffs[:4]), cj)
+        # Pcp/Deep.lean (`error_isolated_deep`): the sources classified against the jail, the file system the theorem
+        # says the receiver ends with and the number of error records it says are sent -- against the real run
+        deep = [(i, c, cj, f, replies, m) for i, c, cj, f, replies, m in errcases
+                if c.get("conflict") and not c.get("fsz") and not c.get("overwrite") and var.get("skipref", 0)]
+        dlines = ["deep %d %d %o %d %d %d %d %s %s %d %s %d %d %d %s %s" % (
+            c["p"], c["y"], c["um"], cnt, var["rule"], var["dch"], c.get("fsz", 0), hx(CWD), hx(c["dest"]),
+            int(c["reverse"]), hx(c["host"]), var["ssec"], var["sfix"], len(ents_l[i]),
+            " ".join(e.token() for e in ents_l[i]), " ".join(c["stoks"])) for i, c, cj, f, replies, m in deep]
+        for (i, c, cj, f, replies, m), dl in zip(deep, pcp.par_model(ctx, "pcp", dlines)):
+            if not dl.startswith("replies="):
+                ctx.disagreement("pcp deep", "unexpected answer " + dl[:200], cj)
+                continue
+            md = pcp.parse_model(dl)
+            dist["deep_conflict_cases"] = dist.get("deep_conflict_cases", 0) + 1
+            nerr = sum(1 for r in replies if r.startswith("E:"))
+            key = "%s entries that cannot be written" % md["bad"]
+            dist.setdefault("deep_by_count", {})[key] = dist.setdefault("deep_by_count", {}).get(key, 0) + 1
+            if int(md["bad"]) != nerr:
+                ctx.disagreement("pcp deep: error records", "Pcp/Deep.lean counts %s entries that cannot be written, the real "
+                                 "receiver sent %d error records (%s)" % (md["bad"], nerr, replies[:12]), cj)
+                continue
+            diffs = pcp.compare_fs(md["fs"], snaps[i], t0)
+            if diffs:
+                ctx.disagreement("pcp deep: file system", "; ".join(diffs[:4]), cj)
         for (i, c, cj, f, replies, m), ml in zip(errcases, pcp.par_model(ctx, "pcp", lines)):
             dist["error_paths_checked"] = dist.get("error_paths_checked", 0) + 1
             mm = pcp.parse_model(ml)
@@ -519,7 +566,7 @@ def run_cases(ctx, exe, cases, cnt, var, cov, dist, distinct, nested=False):
             diffs = pcp.compare_fs(mm["fs"], snaps[i], t0)
             if diffs:
                 ctx.disagreement("pcp file system (real client stream with error replies)", "; ".join(diffs[:4]), cj)
-            if c.get("conflict") and c["conflict"][1] == "f" and m["c2s"] != "~":
+            if c.get("conflict") and c["conflict"][1] == "f" and m["c2s"] != "~" and not c.get("more_conflicts"):
                 # sender model of Pcp/Isolated.lean (itemsBytes): the all-positive stream without that file's data + NUL
                 full = pcp.unhx(m["c2s"])
                 node = dict((pa, n) for _, t in c["srcs"] for pa, n in walk(t, []))[c["conflict"][0]]
@@ -687,6 +734,7 @@ def case_json(c):
                 file_size_limit=c.get("fsz", 0), destmode="%o" % c["destmode"], conflict=(c["conflict"][0].decode("latin-1"), c["conflict"][1]) if c["conflict"] else None,
                 overwrite=c["overwrite"].decode("latin-1") if c.get("overwrite") else None,
                 old_extra=c.get("old_extra", 50), refused=bool(c.get("refused")),
+                more_conflicts=[(a.decode("latin-1"), b) for a, b in c.get("more_conflicts") or []],
                 asname=[x.decode("latin-1") for x in c["asname"]] if c.get("asname") else None)
 
 
@@ -704,6 +752,7 @@ def from_json(j, k):
                 overwrite=j["overwrite"].encode("latin-1") if j.get("overwrite") else None, fsz=j.get("file_size_limit", 0),
                 destmode=int(j["destmode"], 8), subsec=any(n.nsec for s in j["sources"] for _, n in walk(mk(s["tree"]), [])),
                 old_extra=j.get("old_extra", 50), refused=j.get("refused", False),
+                more_conflicts=[(a.encode("latin-1"), b) for a, b in j.get("more_conflicts") or []],
                 asname=tuple(x.encode("latin-1") for x in j["asname"]) if j.get("asname") else None)
 
 
@@ -798,6 +847,17 @@ def classes():
     for path, kind in ((b"tree", "d"), (b"tree/sub", "d"), (b"tree/a", "f"), (b"tree/sub/x", "f"), (b"tree/z", "f")):
         for p in (0, 1):
             cs.append(dict(base, p=p, conflict=(path, kind), srcs=[(b"", tree()), (b"", f(b"other file", 7))]))
+    # several entries of the wrong kind in one run, at depth 2, 3 and 4, next to entries that arrive (Pcp/Deep.lean)
+    def tree2():
+        return d(b"tree", [f(b"a", 3), d(b"sub", [f(b"x", 4), d(b"deeper", [f(b"y", 1), d(b"deepest", [f(b"w", 2)])]), f(b"x2", B + 1)]),
+                           d(b"sub2", [f(b"k", 6)]), f(b"z", 5)])
+    for p in (0, 1):
+        cs.append(dict(base, p=p, conflict=(b"tree/a", "f"), more_conflicts=[(b"tree/sub2", "d"), (b"tree/sub/x", "f")],
+                       srcs=[(b"", tree2()), (b"", f(b"other file", 7))]))
+        cs.append(dict(base, p=p, conflict=(b"tree/sub/deeper/y", "f"), more_conflicts=[(b"tree/sub/deeper/deepest", "d")],
+                       srcs=[(b"", tree2())]))
+        cs.append(dict(base, p=p, conflict=(b"tree/sub/deeper", "d"), more_conflicts=[(b"tree/z", "f"), (b"other", "d")],
+                       srcs=[(b"", tree2()), (b"", d(b"other", [f(b"o1", 1)])), (b"", f(b"last", 2))]))
     cs.append(dict(base, conflict=(b"single", "f"), srcs=[(b"", f(b"single", 9)), (b"", f(b"next", B + 3))]))
     cs.append(dict(base, reverse=True, host=b"n1.dom.ain", conflict=(b"single", "f"), srcs=[(b"", f(b"single", 9)), (b"", f(b"next", 3))]))
     # ---- an existing longer file is replaced, not patched
